@@ -54,7 +54,20 @@ func (vc *VC) heapWF(name string, h Term, alloc Term) Term {
 		for _, m := range vc.S.maps {
 			if "MapHeap_"+strings.Trim(m.name, "|")[7:] == name {
 				ks := vc.S.sortOf(m.k)
-				return fmt.Sprintf("(and (forall ((wf!r Int)) (! (<= 0 (%s (select %s wf!r))) :pattern ((select %s wf!r)))) (= (%s (select %s 0)) 0)"+
+				// values stored under present keys are well-formed Go values: references below the
+				// allocation counter, slice shapes, interface typing
+				vcell := fmt.Sprintf("(select (%s (select %s wf!r)) wf!k)", m.vals(), h)
+				var vfacts []Term
+				for _, r := range vc.refTerms(m.v, vcell, 0) {
+					vfacts = append(vfacts, app("<", r, alloc), app("<=", "0", r))
+				}
+				vfacts = append(vfacts, vc.ifaceFacts(m.v, vcell, 0))
+				vfacts = append(vfacts, vc.shapeFacts(m.v, vcell, 0)...)
+				extra := ""
+				if vf := and(vfacts...); vf != "true" {
+					extra = fmt.Sprintf(" (forall ((wf!r Int) (wf!k %s)) (! (=> (select (%s (select %s wf!r)) wf!k) %s) :pattern (%s)))", ks, m.present(), h, vf, vcell)
+				}
+				return fmt.Sprintf("(and"+extra+" (forall ((wf!r Int)) (! (<= 0 (%s (select %s wf!r))) :pattern ((select %s wf!r)))) (= (%s (select %s 0)) 0)"+
 					" (forall ((wf!r Int) (wf!k %s)) (! (=> (select (%s (select %s wf!r)) wf!k) (and (<= 1 (%s (select %s wf!r))) (not (= wf!r 0)))) :pattern ((select (%s (select %s wf!r)) wf!k)))))",
 					m.size(), h, h, m.size(), h, ks, m.present(), h, m.size(), h, m.present(), h)
 			}
